@@ -414,12 +414,13 @@ def c09(tier):
 def c15(tier):
     out = []
     ops = ['set', 'clr', 'reset', 'wr1003', 'rd1003', 'get']
-    for h in ((1, 2, 3) if tier == 'quick' else (1, 2, 3, 4)):
-        for mode in (2, 3, 4):
-            for op in range(6):
-                if mode != 2 and tier == 'quick' and h != 2:
-                    continue
-                ne = 4 if tier == 'quick' else 6
+    cfgs = [(h, mode, op, (4 if tier == 'quick' else 6)) for h in ((1, 2, 3) if tier == 'quick' else (1, 2, 3, 4)) for mode in (2, 3, 4) for op in range(6)
+            if not (mode != 2 and tier == 'quick' and h != 2)]
+    # error tables that span several status bytes (more than 8 / 16 errors)
+    cfgs += [(2, 2, op, ne) for op in ((2, 1) if tier == 'quick' else (0, 1, 2, 5)) for ne in ((12,) if tier == 'quick' else (12, 20))]
+    if True:
+        if True:
+            for h, mode, op, ne in cfgs:
                 ring = [None]
                 if op == 0:
                     ring = [(n, n) for n in range(h)] + [(h, o) for o in range(1, h + 1)]
@@ -429,10 +430,10 @@ def c15(tier):
                     if rg:
                         defs.update({'HNUM': rg[0], 'HOFF': rg[1]})
                     uw = node_unwind(2)
-                    uw.update({'COTEmcyHistInit': h + 3, 'COEmcyHistReset': h + 3, 'COEmcySend': 7, 'COEmcyReset': ne + 2, 'COEmcyInit': 9, 'COEmcyCnt': 9,
-                               'm_reg': ne + 2, 'm_cnt': ne + 2, 'check_state': 9, 'COTmrClear': 4})
+                    uw.update({'COTEmcyHistInit': h + 3, 'COEmcyHistReset': h + 3, 'COEmcySend': 7, 'COEmcyReset': ne + 2, 'COEmcyInit': max(9, ne + 2), 'COEmcyCnt': max(9, ne + 2),
+                               'm_reg': ne + 2, 'm_cnt': ne + 2, 'check_state': max(9, ne + 2), 'harness': max(20, ne + 4), 'COTmrClear': 4})
                     uw.update(lss_unwind())
-                    out.append(Inst('emcy_step_h%d_%s_%s%s' % (h, NMT_MODE[mode], ops[op], ('_r%d_%d' % rg) if rg else ''), 'emcy_step.c', defs, unwind=20,
+                    out.append(Inst('emcy_step_h%d_%s_%s%s%s' % (h, NMT_MODE[mode], ops[op], ('_r%d_%d' % rg) if rg else '', ('_e%d' % ne) if ne > 6 else ''), 'emcy_step.c', defs, unwind=max(20, ne + 4),
                                     unwindset=uw, objbits=10, harness_only=['MODE', 'OP', 'HNUM', 'HOFF'], family='emcy_step',
                                     bounds='%d errors, history depth %d, mode %s, operation %s; table, active set, history contents%s, 1014h, arguments symbolic' % (
                                         ne, h, NMT_MODE[mode], ops[op], (' (ring fill %d, position %d)' % rg) if rg else ', ring fill and position')))
@@ -631,17 +632,19 @@ RPDO_MAPS = {
 }
 
 
-def rpdo_inst(mapname, ch=0, t0=254, t1=255, mode=3, seq='R'):
+def rpdo_inst(mapname, ch=0, t0=254, t1=255, mode=3, seq='R', other=False):
     m = RPDO_MAPS[mapname]
     defs = dict(NODE_DEFS)
     defs.update({'MAP': '{' + ','.join('0x%08X' % x for x in m) + '}', 'MAPN': len(m), 'CH': ch, 'TYPE0': t0, 'TYPE1': t1, 'MODE': mode,
                  'SEQ': '"%s"' % seq, 'CO_VERIF_SDO_BUF_SEG': 2})
+    if other:
+        defs['OTHER'] = None
     uw = node_unwind(2)
     uw.update(lss_unwind())
     uw.update({'COSyncInit': 4, 'COSyncHandler': 4, 'COSyncUpdate': 4, 'COSyncRx': 9, 'CORPdoCheck': 4, 'CORPdoReset': 10, 'CORPdoWrite': 10, 'CORPdoGetMap': 10,
                'COTPdoGetMap': 10, 'COTPdoTx': 10, 'COTmrClear': 4, 'model_apply': 9, 'COEmcyReset': 6})
-    return Inst('rpdo_%s_ch%d_t%d_%d_%s_%s' % (mapname, ch, t0, t1, NMT_MODE[mode], seq), 'rpdo_step.c', defs, unwind=18, unwindset=uw, objbits=10,
-                harness_only=['MAP', 'MAPN', 'CH', 'TYPE0', 'TYPE1', 'MODE', 'SEQ'], family='rpdo_step',
+    return Inst('rpdo_%s_ch%d_t%d_%d_%s_%s%s' % (mapname, ch, t0, t1, NMT_MODE[mode], seq, '_2ch' if other else ''), 'rpdo_step.c', defs, unwind=18, unwindset=uw, objbits=10,
+                harness_only=['MAP', 'MAPN', 'CH', 'TYPE0', 'TYPE1', 'MODE', 'SEQ', 'OTHER'], family='rpdo_step',
                 bounds='mapping %s on channel %d, channel types %d/%d (255 = invalid), mode %s, sequence %s; payload, dlc, object contents symbolic' % (
                     mapname, ch, t0, t1, NMT_MODE[mode], seq))
 
@@ -654,6 +657,10 @@ def c13(tier):
     for mode in (2, 4):
         out.append(rpdo_inst('l_w_b', mode=mode, seq='RF'))
     out.append(rpdo_inst('l_w_b', seq='FR'))
+    # both channels in use: two synchronous receptions inside one SYNC period, mixed synchronous / asynchronous
+    for ch, t0, t1, sqs in ((0, 1, 1, ('RrS', 'rRS', 'RrSS', 'RSrS')), (1, 1, 240, ('RrS', 'rRSS')), (0, 1, 254, ('RrS', 'rSR')), (0, 254, 1, ('RrS', 'rRSS'))):
+        for sq in sqs:
+            out.append(rpdo_inst('w_b', ch=ch, t0=t0, t1=t1, seq=sq, other=True))
     # NMT changes between a reception and its SYNC
     for sq in ('RPS', 'RZS', 'RPNS', 'RZNLS', 'RPLNS', 'RSPNS', 'PNRS', 'RPNRS', 'ZNRLS'):
         out.append(rpdo_inst('w_b', ch=0, t0=1, t1=255, seq=sq))
